@@ -16,6 +16,8 @@ def key(conj, rec):
     a = rec.get("a", {})
     if op == "W26Intervals":
         return "%s:exhaustive-w26" % conj
+    if a.get("extreme"):
+        return "%s:%s:unrepresentable-field:k=%s" % (conj, op, rec.get("k"))
     if op == "PutCard":
         return "%s:PutCard:card=%d:formats=%s:pin=%d" % (conj, u32(a["card"]["n"]), a["formats"], u32(a["card"]["pin"]))
     if op == "SetListener":
